@@ -5,7 +5,9 @@
  *   mode   n = no fault, s = single fault at stdio call k, t = sticky (call k and every later call fail)
  *   k      0-based index of the stdio call (counted from the moment the workload proper starts; preparation of
  *          input files for read/update workloads runs before with injection off)
- *   variant 0 = failing fread/fwrite transfer nothing, errno EIO; 1 = they transfer a strict prefix, errno ENOSPC
+ *   variant bit 0: 0 = failing fread/fwrite transfer nothing, errno EIO; 1 = they transfer a strict prefix, errno ENOSPC
+ *           bit 1 (2): DD caching switched off for all files (Hcache(CACHE_ALL_FILES, FALSE)): DD blocks are written through
+ *           bit 2 (4): the program ignores failures: every remaining call is still issued (with whatever ids it has)
  * or               fn <scenario> <function> <mode> <k>      (function-level run for the R-vs-M correspondence, see below)
  *
  * Linked with -Wl,--wrap=fopen,fread,fwrite,fseek,ftell,fflush,fclose.  Fault semantics of the interposer (the
@@ -39,6 +41,7 @@
 #include <sys/wait.h>
 #ifdef C16_FN
 #include "hfile.c"      /* the library's own source (-I<repo>/hdf/src): gives access to its static functions */
+#include "hfiledd.c"
 #endif
 #include "hdf.h"
 #include "hfile_priv.h"
@@ -156,6 +159,7 @@ int __wrap_fclose(FILE *f)
 /* ------------------------------------------------------------------------------------------------ */
 /* recording of API results                                                                           */
 static int recording;
+static int keepgoing;     /* variant bit 4: the program ignores failures and issues every remaining call */
 static void rec(const char *name, long rc, int ok)
 {
     if (!recording) return;
@@ -178,10 +182,10 @@ static void hdata(const void *p, long n)
 }
 /* T: a call whose failure value is FAIL; on failure skip to the clean-up part of the workload, as a careful
    program would.  TV: keep the returned id.  TN: a call that must deliver exactly n.  E: release an id. */
-#define T(name, expr)        do { long _r = (long)(expr); rec(name, _r, _r != FAIL); if (_r == FAIL) goto done; } while (0)
-#define TV(var, name, expr)  do { (var) = (expr); rec(name, (long)(var), (var) != FAIL); if ((var) == FAIL) goto done; } while (0)
-#define TN(name, expr, n)    do { long _r = (long)(expr); rec(name, _r, _r == (long)(n)); if (_r != (long)(n)) goto done; } while (0)
-#define E(var, name, fn)     do { if ((var) != FAIL) { long _r = (long)fn(var); rec(name, _r, _r != FAIL); (var) = FAIL; if (_r == FAIL) goto done; } } while (0)
+#define T(name, expr)        do { long _r = (long)(expr); rec(name, _r, _r != FAIL); if (_r == FAIL && !keepgoing) goto done; } while (0)
+#define TV(var, name, expr)  do { (var) = (expr); rec(name, (long)(var), (var) != FAIL); if ((var) == FAIL && !keepgoing) goto done; } while (0)
+#define TN(name, expr, n)    do { long _r = (long)(expr); rec(name, _r, _r == (long)(n)); if (_r != (long)(n) && !keepgoing) goto done; } while (0)
+#define E(var, name, fn)     do { if ((var) != FAIL) { long _r = (long)fn(var); rec(name, _r, _r != FAIL); (var) = FAIL; if (_r == FAIL && !keepgoing) goto done; } } while (0)
 /* OPT: a call that may legitimately return FAIL in the fault-free run too (e.g. "no fill value set", "not found"):
    recorded with flag 2 when it fails; the parent counts it as a visible failure unless the fault-free run failed at
    the same place.  Evaluates to true when the call delivered a value. */
@@ -657,7 +661,9 @@ static void run_child(const char *dir, void (*body)(const char *, void *), void 
         fail_at = (md == 'n') ? -1 : k;
         fail_at2 = (md == 'n') ? -1 : job_k2;
         sticky = md == 't';
-        variant = var;
+        variant = var & 1;
+        keepgoing = (var & 4) != 0;
+        if (var & 2) Hcache(CACHE_ALL_FILES, FALSE);     /* write-through DD blocks for every file */
         body(path, arg);
         RES->finished = 1;
         armed = 0;
@@ -689,7 +695,7 @@ static void wl_body(const char *path, void *arg)
 #include "drive_fault_fn.h"
 #endif
 
-static struct { int have; struct outcome o; int nondet; } BASE[NWL];
+static struct { int have; struct outcome o; int nondet; } BASE2[NWL][2];     /* [workload][DD caching off] */
 
 int main(int argc, char **argv)
 {
@@ -717,15 +723,17 @@ int main(int argc, char **argv)
         int w = -1;
         for (int i = 0; i < NWL; i++) if (!strcmp(WL[i].name, wl)) w = i;
         if (w < 0) { printf("%ld unknown-workload %s\n", ln, wl); continue; }
-        if (!BASE[w].have) {
+        int nc = (var & 2) != 0;
+#define BASE_ BASE2[w][nc]
+        if (!BASE_.have) {
             struct outcome b2;
-            run_child(dir, wl_body, (void *)WL[w].fn, -1, 'n', 0, &BASE[w].o);
-            run_child(dir, wl_body, (void *)WL[w].fn, -1, 'n', 0, &b2);
-            BASE[w].nondet = imgdiff(BASE[w].o.img, b2.img) != -1 || BASE[w].o.res.datahash != b2.res.datahash;
+            run_child(dir, wl_body, (void *)WL[w].fn, -1, 'n', var & 2, &BASE_.o);
+            run_child(dir, wl_body, (void *)WL[w].fn, -1, 'n', var & 2, &b2);
+            BASE_.nondet = imgdiff(BASE_.o.img, b2.img) != -1 || BASE_.o.res.datahash != b2.res.datahash;
             free(b2.img.b);
-            BASE[w].have = 1;
+            BASE_.have = 1;
         }
-        struct outcome o, *b = &BASE[w].o;
+        struct outcome o, *b = &BASE_.o;
         if (md[0] == 'n') o = *b;
         else run_child(dir, wl_body, (void *)WL[w].fn, k, md[0], var, &o);
         int allok = 1;
@@ -746,7 +754,7 @@ int main(int argc, char **argv)
         if (strcmp(o.status, "ok") != 0 || (allok && (fd != -1 || !datasame)) || getenv("C16_WHERE"))
             where_names(&o.res, where, sizeof where);      /* only for runs that will be reported */
         printf(" allok=%d same=%d firstdiff=%ld size=%ld datasame=%d nondet=%d where=%s kinds=%s\n", allok, fd == -1, fd,
-               o.img.n, datasame, BASE[w].nondet, where[0] ? where : "-", md[0] == 'n' ? o.res.kinds : "-");
+               o.img.n, datasame, BASE_.nondet, where[0] ? where : "-", md[0] == 'n' ? o.res.kinds : "-");
         if (md[0] != 'n') free(o.img.b);
     }
     return 0;
